@@ -122,6 +122,9 @@ Section Helpers.
 
   (* prox.NoOp._prox *)
   Definition noop (alpha : S) (input : V) : V := input.
+  (* `prox.NoOp(shape) if self.proxg is None else self.proxg` *)
+  Definition prox_or_noop (p : option (S -> V -> V)) : S -> V -> V :=
+    match p with None => noop | Some q => q end.
 
   (* prox.L2Reg(shape, lamda, y, proxh)._prox:
        output = input.copy()
@@ -152,7 +155,7 @@ Section Helpers.
      [inf] is the initial value np.inf of max_eig, returned when n = 0 *)
   Definition max_eig (op : V -> V) (n : nat) (x0 : V) (inf : S) : S := snd (pm_iter op n (x0, inf)).
 End Helpers.
-Arguments noop {S V}. Arguments l2reg {S V}. Arguments conj_prox {S V}.
+Arguments noop {S V}. Arguments prox_or_noop {S V}. Arguments l2reg {S V}. Arguments conj_prox {S V}.
 Arguments pm_step {S V}. Arguments pm_iter {S V}. Arguments max_eig {S V}.
 
 (* PrimalDualHybridGradient._update with SCALAR tau, sigma (what LinearLeastSquares passes):
@@ -223,7 +226,7 @@ Section NoG.
        proxfc = L2Reg(y.shape, 1, y=-self.y);  gamma_dual = 1 *)
   Definition pdhg_primal_prox : S -> X -> X :=
     if sgt0 lamda then l2reg lamda z proxg
-    else match proxg with None => noop | Some p => p end.
+    else prox_or_noop proxg.
   Definition pdhg_gamma_primal : S := if sgt0 lamda then lamda else s0.
   Definition pdhg_dual_prox_data : S -> Y -> Y := l2reg s1 (Some (vscale (sopp s1) y)) None.
   Definition pdhg_gamma_dual_noG : S := s1.
@@ -294,7 +297,7 @@ Section WithG.
   Definition stackAH (u : stackU) : X := vadd (AH (fst u)) (GH (snd u)).          (* its adjoint: Hstack([A.H, G.H]) *)
   Definition pdhgG_dual_prox (sigma : S) (u : stackU) : stackU :=               (* Stack([proxf1c, proxf2c]) *)
     (pdhg_dual_prox_data S Y y sigma (fst u),
-     conj_prox (match proxg with None => noop | Some p => p end) sigma (snd u)).
+     conj_prox (prox_or_noop proxg) sigma (snd u)).
   Definition pdhgG_primal_prox : S -> X -> X :=
     if sgt0 lamda then l2reg lamda z None else noop.
   Definition pdhgG_gamma_primal : S := if sgt0 lamda then lamda else s0.
